@@ -31,6 +31,10 @@ pub struct Scn {
     /// (at_ms, kind): 0 start() again, 1 stop()+start(), 2 stop()
     pub restarts: Vec<(u64, u8)>,
     pub observe_at_ms: Vec<u64>,
+    /// check timeout = Duration::MAX ("never time a check out"); every check then finishes
+    /// within its interval
+    #[serde(default)]
+    pub no_timeout: bool,
 }
 
 const INTERVAL: u64 = 50;
@@ -39,7 +43,7 @@ const TIMEOUT: u64 = 20;
 pub fn gen(rng: &mut Rng) -> Scn {
     let nres = rng.range(1, 4) as usize;
     let intervals = rng.range(20, 200) as usize;
-    let resources = (0..nres)
+    let resources: Vec<Vec<Check>> = (0..nres)
         .map(|_| {
             let style = rng.below(4);
             let mut prev = 0u8;
@@ -67,7 +71,14 @@ pub fn gen(rng: &mut Rng) -> Scn {
     let nobs = rng.range(4, 24);
     let observe_at_ms = (0..nobs).map(|_| rng.below(horizon / 5) * 5 + 2).collect();
     let restarts = if rng.chance(1, 4) { (0..rng.range(1, 2)).map(|_| (rng.below(horizon / 5) * 5 + *rng.pick(&[0u64, 1, 3]), rng.below(3) as u8)).collect() } else { vec![] };
+    let no_timeout = rng.chance(1, 8);
+    let resources: Vec<Vec<Check>> = if no_timeout {
+        resources.into_iter().map(|r: Vec<Check>| r.into_iter().map(|c| Check { res: c.res, lat_ms: if c.lat_ms == 9999 { 40 } else { c.lat_ms } }).collect()).collect()
+    } else {
+        resources
+    };
     Scn {
+        no_timeout,
         resources,
         failure_threshold: rng.range(1, 4) as u32,
         success_threshold: rng.range(1, 4) as u32,
@@ -79,7 +90,8 @@ pub fn gen(rng: &mut Rng) -> Scn {
 }
 
 pub fn valid(s: &Scn) -> bool {
-    !s.resources.is_empty()
+    (!s.no_timeout || s.resources.iter().all(|r| r.iter().all(|c| c.lat_ms <= 45)))
+        && !s.resources.is_empty()
         && s.resources.len() <= 5
         && s.resources.iter().all(|r| !r.is_empty() && r.len() <= 220 && r.iter().all(|c| c.res <= 3 && (c.lat_ms == 9999 || (c.lat_ms <= 45 && c.lat_ms % 5 == 0 && c.lat_ms != TIMEOUT))))
         && s.failure_threshold >= 1
@@ -116,6 +128,7 @@ pub fn run(s: &Scn, ctx: &mut RunCtx) -> RunOutput {
     let nres = s.resources.len();
     let setup = move || {
         let scripts = Arc::new(scn.resources.clone());
+        let no_timeout = scn.no_timeout;
         let counters: Arc<Vec<std::sync::atomic::AtomicUsize>> = Arc::new((0..nres).map(|_| std::sync::atomic::AtomicUsize::new(0)).collect());
         let sc = scripts.clone();
         let cn = counters.clone();
@@ -131,7 +144,7 @@ pub fn run(s: &Scn, ctx: &mut RunCtx) -> RunOutput {
                     world::fault("checker_never");
                     std::future::pending::<()>().await;
                 } else if c.lat_ms > 0 {
-                    if c.lat_ms > TIMEOUT {
+                    if c.lat_ms > TIMEOUT && !no_timeout {
                         world::fault("checker_slow");
                     }
                     tokio::time::sleep(Duration::from_millis(c.lat_ms)).await;
@@ -147,7 +160,7 @@ pub fn run(s: &Scn, ctx: &mut RunCtx) -> RunOutput {
         let mut b = HealthCheckWrapper::builder()
             .with_checker(checker)
             .with_interval(Duration::from_millis(INTERVAL))
-            .with_timeout(Duration::from_millis(TIMEOUT))
+            .with_timeout(if scn.no_timeout { Duration::MAX } else { Duration::from_millis(TIMEOUT) })
             .with_initial_delay(Duration::from_millis(scn.initial_delay_ms))
             .with_failure_threshold(scn.failure_threshold)
             .with_success_threshold(scn.success_threshold)
@@ -227,11 +240,27 @@ pub fn run(s: &Scn, ctx: &mut RunCtx) -> RunOutput {
     for (r, res, k) in notes(&log, "check_start") {
         let res = res as usize;
         let c = s.resources[res][(k as usize).min(s.resources[res].len() - 1)];
-        let timed_out = c.lat_ms == 9999 || c.lat_ms > TIMEOUT;
+        let timed_out = !s.no_timeout && (c.lat_ms == 9999 || c.lat_ms > TIMEOUT);
         let done = r.t_us + if timed_out { TIMEOUT } else { c.lat_ms } * 1000;
         verdicts.push((res, done, k as u64, if timed_out { 2 } else { c.res }));
     }
     verdicts.sort_by_key(|v| (v.1, v.2));
+    // the background loop is alive: without stop()/start() in between, every resource is checked
+    // once per interval from the initial delay on
+    if s.restarts.is_empty() {
+        let end_ms = rep.end_us / 1000;
+        let due = (end_ms.saturating_sub(s.initial_delay_ms) / INTERVAL).saturating_sub(1);
+        for res in 0..nres {
+            let started = verdicts.iter().filter(|v| v.0 == res).count() as u64;
+            if started < due {
+                world::violation(
+                    "C18.checks_run",
+                    if started == 0 { "never" } else { "too_few" },
+                    format!("resource {} was checked {} times in {}ms (interval {}ms, initial delay {}ms): at least {} checks were due", res, started, end_ms, INTERVAL, s.initial_delay_ms, due),
+                );
+            }
+        }
+    }
     let ft = s.failure_threshold as u64;
     let st = s.success_threshold as u64;
     let mut flips = 0;
